@@ -21,7 +21,9 @@ import (
 	"oras.land/oras-go/v2/content/oci"
 )
 
-const batchWatchdog = 120 * time.Second
+// a wedge (deadlock) is reported within about a minute, but only after a fresh store driven
+// through the same history wedges again (a stall of the loaded machine is not a finding)
+const batchWatchdog = 15 * time.Second
 
 func (r *runner) batch(tok string) {
 	ops := strings.Split(tok[1:], "|")
@@ -51,7 +53,12 @@ func (r *runner) batch(tok string) {
 	case <-done:
 	case <-time.After(batchWatchdog):
 		r.hung = true
-		r.fail("conc-wedge", fmt.Sprintf("concurrent operations %v did not all return within %v", ops, batchWatchdog))
+		if !r.confirming && r.confirmHang() {
+			r.fail("conc-wedge", fmt.Sprintf("concurrent operations %v did not all return within %v, twice (fresh store, same history)", ops, batchWatchdog))
+		} else if !r.confirming {
+			run.Count("batch-watchdog-fired-not-confirmed(case dropped)")
+			r.dropped = true
+		}
 		r.h.caseOps = append(r.h.caseOps, tok+"=hang@-@-")
 		r.out = append(r.out, "&HANG")
 		return
